@@ -321,10 +321,11 @@ func init() {
 			joe("vhC06Joe", "NSUB", 1, "NMSG", 3, "NSHUT", 0, "CANCEL", 0, "TOPICS", 0),
 			joe("vhC06Joe", "NSUB", 2, "NMSG", 2, "NSHUT", 0, "CANCEL", 0, "TOPICS", 0),
 			joe("vhC06Joe", "NSUB", 2, "NMSG", 1, "NSHUT", 0, "CANCEL", 0, "TOPICS", 1),
-			joe("vhC06Joe", "NSUB", 2, "NMSG", 1, "NSHUT", 0, "CANCEL", 1, "TOPICS", 0),
+			joe("vhC06Joe", "NSUB", 2, "NMSG", 1, "NSHUT", 0, "CANCEL", 1, "CANCELN", 1, "TOPICS", 0),
 		},
 		Thorough: []hrun{
-			joe("vhC06Joe", "NSUB", 2, "NMSG", 2, "NSHUT", 1, "CANCEL", 1, "TOPICS", 0),
+			joe("vhC06Joe", "NSUB", 2, "NMSG", 1, "NSHUT", 0, "CANCEL", 1, "TOPICS", 0),
+			joe("vhC06Joe", "NSUB", 2, "NMSG", 2, "NSHUT", 1, "CANCEL", 1, "CANCELN", 1, "TOPICS", 0),
 			joe("vhC06Joe", "NSUB", 1, "NMSG", 2, "NSHUT", 1, "CANCEL", 1, "TOPICS", 0),
 			joe("vhC06Joe", "NSUB", 2, "NMSG", 2, "NSHUT", 0, "CANCEL", 0, "TOPICS", 0),
 		},
@@ -368,7 +369,7 @@ func init() {
 			joe("vhC03Joe", "NSUB", 1, "NMSG", 2, "NSHUT", 0, "CANCEL", 1, "TOPICS", 0, "FAULTS", 1),
 			joe("vhC03Joe", "NSUB", 2, "NMSG", 1, "NSHUT", 1, "CANCEL", 0, "TOPICS", 0),
 			joe("vhC03Joe", "NSUB", 2, "NMSG", 1, "NSHUT", 0, "CANCEL", 0, "TOPICS", 1, "FAULTS", 1),
-			joe("vhC03Joe", "NSUB", 2, "NMSG", 1, "NSHUT", 0, "CANCEL", 1, "TOPICS", 0),
+			joe("vhC03Joe", "NSUB", 2, "NMSG", 1, "NSHUT", 0, "CANCEL", 1, "CANCELN", 1, "TOPICS", 0),
 			joe("vhC03Joe", "NSUB", 1, "NMSG", 1, "NSHUT", 0, "CANCEL", 0, "TOPICS", 1, "NTOPICS", 2),
 			joe("vhC03Joe", "NSUB", 2, "NMSG", 2, "NSHUT", 0, "CANCEL", 0, "TOPICS", 0, "FAULTS", 1),
 		},
@@ -397,7 +398,7 @@ func init() {
 			joe("vhC17Joe", "NSUB", 2, "NMSG", 1, "NSHUT", 0, "CANCEL", 0, "TOPICS", 0, "REPLAYER", 1),
 			joe("vhC17Joe", "NSUB", 1, "NMSG", 2, "NSHUT", 0, "CANCEL", 0, "TOPICS", 0, "REPLAYER", 2),
 			joe("vhC17Joe", "NSUB", 2, "NMSG", 2, "NSHUT", 0, "CANCEL", 0, "TOPICS", 1, "REPLAYER", 1),
-			joe("vhC17Joe", "NSUB", 2, "NMSG", 1, "NSHUT", 0, "CANCEL", 1, "TOPICS", 0, "REPLAYER", 1),
+			joe("vhC17Joe", "NSUB", 2, "NMSG", 1, "NSHUT", 0, "CANCEL", 1, "CANCELN", 1, "TOPICS", 0, "REPLAYER", 1),
 		},
 		Thorough: []hrun{
 			joe("vhC17Joe", "NSUB", 3, "NMSG", 1, "NSHUT", 0, "CANCEL", 0, "TOPICS", 1, "REPLAYER", 1),
